@@ -3,3 +3,14 @@ import Eliot.Properties.ShapesSkel
 #print axioms Eliot.ShapesSkel.validate_shape
 #print axioms Eliot.ShapesSkel.extractor_lookup_shape
 #print axioms Eliot.ShapesSkel.register_shape
+#print axioms Eliot.ShapesSkel.loggedActionFromMessages_shape
+#print axioms Eliot.ShapesSkel.loggedActionOfType_shape
+#print axioms Eliot.ShapesSkel.loggedActionDescendants_shape
+#print axioms Eliot.ShapesSkel.loggedMessageOfType_shape
+#print axioms Eliot.ShapesSkel.assertContainsFieldsBody_shape
+#print axioms Eliot.ShapesSkel.assertHasMessageBody_shape
+#print axioms Eliot.ShapesSkel.assertHasActionBody_shape
+#print axioms Eliot.ShapesSkel.prettyFormatBody_shape
+#print axioms Eliot.ShapesSkel.compactFormatBody_shape
+#print axioms Eliot.ShapesSkel.prettyMainBody_shape
+#print axioms Eliot.ShapesSkel.filterRunBody_shape
